@@ -20,7 +20,7 @@ def filler(nbytes):
     return out
 
 
-def header(nchan, nsamp, coding="pcm", nbytes=2, order="01", hdrsize=1024, rate=8000, extra=(), lead=0):
+def header(nchan, nsamp, coding="pcm", nbytes=2, order="01", hdrsize=1024, rate=8000, extra=(), lead=0, pad=b" "):
     """lead > 0: that many bytes of optional fields before the mandatory ones (pushes them towards / across a
     1024-byte block boundary of an extended header)"""
     lines = ["NIST_1A", "%7d" % hdrsize]
@@ -34,7 +34,8 @@ def header(nchan, nsamp, coding="pcm", nbytes=2, order="01", hdrsize=1024, rate=
     h = ("\n".join(lines + fields + ["end_head"]) + "\n").encode()
     if len(h) > hdrsize:
         raise ValueError("header too small")
-    return h + b" " * (hdrsize - len(h))
+    # what follows "end_head" up to the header size belongs to no field: blanks by convention, but any bytes will do
+    return h + (pad * (hdrsize // len(pad) + 1))[: hdrsize - len(h)]
 
 
 def pcm_bytes(x, order):
